@@ -1,12 +1,16 @@
 /-
-  Reference meaning of condition trees and of the small statement language around them, written from the
-  Lua 5.1 manual (§2.4.3 assignment, §2.4.4 control structures, §2.5.2 relational operators,
-  §2.5.3 logical operators) — NOT from gopher-lua.
+  Reference meaning of expression trees and of the small statement language around them, written from the
+  Lua 5.1 manual (§2.4.3 assignment, §2.4.4 control structures, §2.5.1 arithmetic operators, §2.5.2 relational
+  operators, §2.5.3 logical operators, §2.5.4 concatenation, §2.5.5 the length operator, §2.5.6 precedence:
+  `..` and `^` are right associative) — NOT from gopher-lua.
 
     * `not x`  is true when x is nil or false, false otherwise.
     * `a and b` returns a if a is nil or false, otherwise b (b is not evaluated in the first case).
     * `a or b`  returns a unless a is nil or false, otherwise b.
     * relational operators always yield true or false (or raise for unordered operands).
+    * arithmetic, unary minus, length and concatenation apply the value domain's operation to the operand values
+      (operands evaluated left to right); the operation may raise (`none`) — which values it accepts (numbers, strings
+      convertible to numbers, …) is the value domain's business, the number structure's operations are uninterpreted.
     * in a multiple assignment all expressions are evaluated before any assignment is performed;
       surplus values are dropped, missing ones are nil.
 -/
@@ -14,6 +18,8 @@ import GLua.Spec.CondAst
 
 namespace GLua.CondSpec
 open GLua.Compile
+
+variable [NumStruct]
 
 def ofBool {V} (d : Dom V) (b : Bool) : V := if b then d.trueV else d.falseV
 
@@ -32,7 +38,7 @@ def eval {V} (d : Dom V) (ρ γ : Nat → V) : Cond → Option V
   | .tru => some d.trueV
   | .fls => some d.falseV
   | .nil => some d.nilV
-  | .num n => some (d.num n)
+  | .num n => some (d.num (NumStruct.lit n))
   | .str s => some (d.str s)
   | .loc r => some (ρ r)
   | .ev id => some (γ id)
@@ -52,6 +58,30 @@ def eval {V} (d : Dom V) (ρ γ : Nat → V) : Cond → Option V
       match eval d ρ γ r with
       | none => none
       | some y => relVal d op x y
+  -- §2.5.1: both operands are evaluated (left first), then the operation is applied (it may raise)
+  | .arith op l r =>
+    match eval d ρ γ l with
+    | none => none
+    | some x =>
+      match eval d ρ γ r with
+      | none => none
+      | some y => d.arith op x y
+  | .unm c =>
+    match eval d ρ γ c with
+    | none => none
+    | some x => d.unm x
+  | .len c =>
+    match eval d ρ γ c with
+    | none => none
+    | some x => d.len x
+  -- §2.5.4 / §2.5.6: concatenation is right associative; `a .. b .. c` is `a .. (b .. c)`
+  | .concat l r =>
+    match eval d ρ γ l with
+    | none => none
+    | some x =>
+      match eval d ρ γ r with
+      | none => none
+      | some y => d.concat x y
 
 /-- a condition is taken when its value is neither nil nor false. -/
 def holds {V} (d : Dom V) (ρ γ : Nat → V) (c : Cond) : Option Bool := (eval d ρ γ c).map d.truthy
